@@ -14,8 +14,10 @@ TEXT ·LinfDist(SB), NOSPLIT, $0
 	CMPQ    t_len+32(FP), CX  // CX = max( CX, len(t) )
 	CMOVQLE t_len+32(FP), CX
 	PXOR    X3, X3            // norm = 0
+	PXOR    X4, X4            // allNaN = false
 	CMPQ    CX, $0            // if CX == 0 { return 0 }
 	JE      l1_end
+	PCMPEQL X4, X4            // allNaN = true, cleared by the first non-NaN difference
 	XORQ    AX, AX            // i = 0
 	MOVQ    CX, BX
 	ANDQ    $1, BX            // BX = CX % 2
@@ -29,7 +31,11 @@ l1_loop: // Loop unrolled 2x  do {
 	SUBPD  X1, X0
 	SUBPD  X2, X1
 	MAXPD  X1, X0         // X0 = max( X0 - X1, X1 - X0 )
-	MAXPD  X0, X3         // norm = max( norm, X0 )
+	MOVAPS X0, X2
+	CMPPD  X0, X2, $3     // X2 = isNaN( X0 )
+	ANDPD  X2, X4         // allNaN = allNaN && isNaN( X0 )
+	MAXPD  X3, X0         // X0 = X0 > norm ? X0 : norm, norm if X0 is NaN
+	MOVAPS X0, X3         // norm = X0
 	ADDQ   $2, AX         // i += 2
 	LOOP   l1_loop        // } while --CX > 0
 	CMPQ   BX, $0         // if BX == 0 { return }
@@ -47,11 +53,20 @@ l1_tail:
 	SUBSD  X1, X0
 	SUBSD  X2, X1
 	MAXSD  X1, X0         // X0 = max( X0 - X1, X1 - X0 )
-	MAXSD  X0, X3         // norm = max( norm, X0 )
+	MOVAPS X0, X2
+	CMPSD  X0, X2, $3     // X2[0] = isNaN( X0[0] )
+	ANDPD  X4, X2
+	MOVSD  X2, X4         // allNaN[0] = allNaN[0] && isNaN( X0[0] )
+	MAXSD  X3, X0         // X0 = X0 > norm ? X0 : norm, norm if X0 is NaN
+	MOVSD  X0, X3         // norm[0] = X0[0]
 
 l1_end:
 	MOVAPS X3, X2
 	SHUFPD $1, X2, X2
 	MAXSD  X3, X2         // X2 = max( X3[1], X3[0] )
+	MOVAPS X4, X5
+	SHUFPD $1, X5, X5
+	ANDPD  X4, X5         // X5[0] = allNaN[1] && allNaN[0]
+	ORPD   X5, X2         // NaN if every difference is NaN
 	MOVSD  X2, ret+48(FP) // return X2
 	RET
